@@ -499,6 +499,12 @@ where
             // 6. Compute `a`, `b` to right- and left- multiply with the matrix `M`.
             let (a, b) = L::tensor(point, n_cols, n_rows);
 
+            // A point with the wrong number of coordinates does not belong to this commitment:
+            // the inner products below would silently truncate the longer operand.
+            if a.len() != n_cols || b.len() != n_rows {
+                return Err(Error::InvalidCommitment);
+            }
+
             // 7. Probabilistic checks that whatever the prover sent,
             // matches with what the verifier computed for himself.
             // Note: we sacrifice some code repetition in order not to repeat execution.
